@@ -102,18 +102,27 @@ func (muxer *Muxer) process(vp, ap Packetizer) {
 			continue
 		}
 
-		frame := f.(*codec.Frame)
+		muxer.processFrame(vp, ap, f.(*codec.Frame))
+	}
+}
 
-		switch frame.MediaType {
-		case codec.MediaTypeVideo:
-			if err := vp.Packetize(frame); err != nil {
-				muxer.logger.Errorf("tsmuxer: muxVideoTag error - %s", err.Error())
-			}
-		case codec.MediaTypeAudio:
-			if err := ap.Packetize(frame); err != nil {
-				muxer.logger.Errorf("tsmuxer: muxAudioTag error - %s", err.Error())
-			}
-		default:
+// processFrame 处理一帧；一帧引起的 panic 只丢弃这一帧，不能让转换 routine 退出
+func (muxer *Muxer) processFrame(vp, ap Packetizer, frame *codec.Frame) {
+	defer func() {
+		if r := recover(); r != nil {
+			muxer.logger.Errorf("ts muxer routine panic；r = %v \n %s", r, debug.Stack())
 		}
+	}()
+
+	switch frame.MediaType {
+	case codec.MediaTypeVideo:
+		if err := vp.Packetize(frame); err != nil {
+			muxer.logger.Errorf("tsmuxer: muxVideoTag error - %s", err.Error())
+		}
+	case codec.MediaTypeAudio:
+		if err := ap.Packetize(frame); err != nil {
+			muxer.logger.Errorf("tsmuxer: muxAudioTag error - %s", err.Error())
+		}
+	default:
 	}
 }
